@@ -333,6 +333,8 @@ var commentShapes = []string{
 	"\t%s tab led\t\n\ttab line\n",
 	" %s ünïcode ✓\n",
 	" %s trailing spaces    \n",
+	" %s names the package to install\n package main\n",
+	" func %s() { return } // looks like code\n import \"fmt\"\n",
 }
 
 func randComment(r *rand.Rand, name string) string {
